@@ -62,6 +62,9 @@ package graphsync
 
 //@ extern func (github.com/ipfs/go-graphsync.IncomingBlockHookActions).TerminateWithError
 //@ func (*graphsync.Transport).gsIncomingBlockHook {C16,C07,C01}
+//@   ensures [refusal-terminates] {C16,C04} (calls(EventsHandler.OnDataReceived) == 1 && ret(EventsHandler.OnDataReceived, 0) != nil && ret(EventsHandler.OnDataReceived, 0) != datatransfer.ErrPause) ?
+//@       calls(IncomingBlockHookActions.TerminateWithError) == 1 && all(IncomingBlockHookActions.TerminateWithError, $1 == ret(EventsHandler.OnDataReceived, 0)) && never(IncomingBlockHookActions.PauseRequest) :
+//@       never(IncomingBlockHookActions.TerminateWithError)
 //@   acquires {C20} channels.blockIndexCache.lk, channels.progressCache.lk, graphsync.requestIDToChannelIDMap.lk, tracing.SpansIndex.spansLk
 //@   requires response != nil && block != nil && hookActions != nil && t.events != nil
 //@   ensures [looked-up] called(requestIDToChannelIDMap.load, _, response.RequestID())
@@ -81,8 +84,15 @@ package graphsync
 //@   ensures [only] only(requestIDToChannelIDMap.load, EventsHandler.OnDataSent)
 
 //@ func (*graphsync.Transport).gsOutgoingBlockHook {C16,C07,C08}
+//@   ensures [refusal-terminates] {C16,C04} calls(EventsHandler.OnDataQueued) == 1 && ret(EventsHandler.OnDataQueued, 1) != nil && ret(EventsHandler.OnDataQueued, 1) != datatransfer.ErrPause ==>
+//@       calls(OutgoingBlockHookActions.TerminateWithError) == 1 && all(OutgoingBlockHookActions.TerminateWithError, $1 == ret(EventsHandler.OnDataQueued, 1)) && never(OutgoingBlockHookActions.PauseResponse) &&
+//@       never(OutgoingBlockHookActions.SendExtensionData)
+//@   ensures [notice-travels-with-block] {C08} calls(EventsHandler.OnDataQueued) == 1 && (ret(EventsHandler.OnDataQueued, 1) == nil || ret(EventsHandler.OnDataQueued, 1) == datatransfer.ErrPause) ==>
+//@       calls(ToExtensionData) == (ret(EventsHandler.OnDataQueued, 0) != nil ? 1 : 0) && all(ToExtensionData, $0 == ret(EventsHandler.OnDataQueued, 0)) &&
+//@       (calls(ToExtensionData) == 1 && ret(ToExtensionData, 1) != nil ? calls(OutgoingBlockHookActions.TerminateWithError) == 1 :
+//@           never(OutgoingBlockHookActions.TerminateWithError) && calls(OutgoingBlockHookActions.SendExtensionData) == (calls(ToExtensionData) == 1 ? len(ret(ToExtensionData, 0)) : 0))
 //@   acquires {C20} channels.blockIndexCache.lk, channels.progressCache.lk, graphsync.requestIDToChannelIDMap.lk, tracing.SpansIndex.spansLk
-//@   loop 0 invariant [extensions] $i >= 0
+//@   loop 0 invariant [extensions] $i >= 0 && calls(OutgoingBlockHookActions.SendExtensionData) == $i
 //@   requires request != nil && block != nil && hookActions != nil && t.events != nil
 //@   ensures [wire-filter] block.BlockSizeOnWire() == 0 ==> untouched && never(requestIDToChannelIDMap.load)
 //@   ensures [unknown-request] calls(requestIDToChannelIDMap.load) == 1 && !ret(requestIDToChannelIDMap.load, 1) ==> untouched
@@ -142,14 +152,26 @@ package graphsync
 //@       only(GetTransferData, EventsHandler.OnRequestReceived, EventsHandler.OnResponseReceived)
 
 //@ func (*graphsync.Transport).gsRequestUpdatedHook {C16,C05}
+//@   ensures [refusal-terminates] {C16,C04} calls(Transport.processExtension) == 1 && (calls(ToExtensionData) == 1 ==> ret(ToExtensionData, 1) == nil) ==>
+//@       calls(RequestUpdatedHookActions.TerminateWithError) == ((ret(Transport.processExtension, 1) != nil && ret(Transport.processExtension, 1) != datatransfer.ErrPause) ? 1 : 0) &&
+//@       all(RequestUpdatedHookActions.TerminateWithError, $1 == ret(Transport.processExtension, 1))
+//@   ensures [reply-travels-back] {C16} calls(Transport.processExtension) == 1 ==> calls(ToExtensionData) == (ret(Transport.processExtension, 0) != nil ? 1 : 0) &&
+//@       all(ToExtensionData, $0 == ret(Transport.processExtension, 0)) && (calls(ToExtensionData) == 1 && ret(ToExtensionData, 1) != nil ==> calls(RequestUpdatedHookActions.TerminateWithError) == 1 &&
+//@           never(RequestUpdatedHookActions.SendExtensionData)) &&
+//@       (calls(ToExtensionData) == 1 && ret(ToExtensionData, 1) == nil ==> calls(RequestUpdatedHookActions.SendExtensionData) == len(ret(ToExtensionData, 0)))
 //@   acquires {C20} channels.progressCache.lk, graphsync.Transport.dtChannelsLk, graphsync.dtChannel.lk, graphsync.dtChannel.optionsLk, graphsync.requestIDToChannelIDMap.lk, registry.Registry.registryLk, transportoptions.TransportOptions.optionsLk
-//@   loop 0 invariant [extensions] $i >= 0
+//@   loop 0 invariant [extensions] $i >= 0 && calls(RequestUpdatedHookActions.SendExtensionData) == $i
 //@   requires request != nil && update != nil && hookActions != nil && t.events != nil
 //@   ensures [unknown-request] !ret(requestIDToChannelIDMap.load, 1) ==> untouched
 //@   ensures [routed] all(Transport.processExtension, $1 == ret(requestIDToChannelIDMap.load, 0) && $2 == update && $3 == p) && all(requestIDToChannelIDMap.load, $1 == request.ID())
 //@ func (*graphsync.Transport).gsIncomingResponseHook {C16,C05}
+//@   ensures [refusal-terminates] {C16,C04} calls(Transport.processExtension) >= 1 && (calls(ToExtensionData) == 1 ==> ret(ToExtensionData, 1) == nil) ==>
+//@       calls(Transport.processExtension) == 2 && (calls(IncomingResponseHookActions.TerminateWithError) >= 1) == (ret(Transport.processExtension, 1) != nil || ret_last(Transport.processExtension, 1) != nil)
+//@   ensures [reply-travels-back] {C16} calls(Transport.processExtension) >= 1 ==> calls(ToExtensionData) == (ret(Transport.processExtension, 0) != nil ? 1 : 0) &&
+//@       all(ToExtensionData, $0 == ret(Transport.processExtension, 0)) &&
+//@       (calls(ToExtensionData) == 1 && ret(ToExtensionData, 1) == nil ==> calls(IncomingResponseHookActions.UpdateRequestWithExtensions) == len(ret(ToExtensionData, 0)))
 //@   acquires {C20} channels.progressCache.lk, graphsync.Transport.dtChannelsLk, graphsync.dtChannel.lk, graphsync.dtChannel.optionsLk, graphsync.requestIDToChannelIDMap.lk, registry.Registry.registryLk, transportoptions.TransportOptions.optionsLk
-//@   loop 0 invariant [extensions] $i >= 0
+//@   loop 0 invariant [extensions] $i >= 0 && calls(IncomingResponseHookActions.UpdateRequestWithExtensions) == $i
 //@   requires response != nil && hookActions != nil && t.events != nil
 //@   ensures [unknown-request] !ret(requestIDToChannelIDMap.load, 1) ==> untouched
 //@   ensures [routed] all(Transport.processExtension, $1 == ret(requestIDToChannelIDMap.load, 0) && $2 == response && $3 == p) && all(requestIDToChannelIDMap.load, $1 == response.RequestID())
@@ -247,6 +269,7 @@ package graphsync
 //@   acquires {C20} graphsync.dtChannel.lk
 //@   cancellable ctx
 //@ func (*graphsync.dtChannel).close {C09,C20}
+//@   ensures [no-live-request-after-close] {C09} c.requestID == nil || c.requesterCancelled -- closing always cancels (and forgets) a live request
 //@   prompt {C09} -- closing returns promptly whatever the state of the request: every wait has an answer promised
 //@   requires ctx != nil
 //@   modifies c.requestID
@@ -270,9 +293,16 @@ package graphsync
 //@   modifies c.pendingExtensions, c.xferStarted
 //@   acquires {C20} graphsync.dtChannel.lk
 //@ func (*graphsync.dtChannel).gsReqOpened {C16,C20}
+//@   ensures [request-mapped-as-receiving] {C16} called(requestIDToChannelIDMap.set, c.t.requestIDToChannelID, requestID, false, c.channelID) && calls(requestIDToChannelIDMap.set) == 1
+//@   ensures [channel-store-and-limit] {C16,C01} calls(OutgoingRequestHookActions.UsePersistenceOption) == (ret(dtChannel.hasStore, 0) ? 1 : 0) &&
+//@       all(OutgoingRequestHookActions.UsePersistenceOption, $1 == "data-transfer-" + c.channelID.String()) &&
+//@       calls(OutgoingRequestHookActions.MaxLinks) == 1 && all(OutgoingRequestHookActions.MaxLinks, $1 == ret(dtChannel.maxLinks, 0))
 //@   acquires {C20} graphsync.dtChannel.optionsLk, graphsync.requestIDToChannelIDMap.lk
 //@   requires hookActions != nil
 //@ func (*graphsync.dtChannel).gsDataRequestRcvd {C16,C20,C10}
+//@   ensures [channel-store-and-limit] {C16,C01} calls(IncomingRequestHookActions.UsePersistenceOption) == (ret(dtChannel.hasStore, 0) ? 1 : 0) &&
+//@       all(IncomingRequestHookActions.UsePersistenceOption, $1 == "data-transfer-" + c.channelID.String()) &&
+//@       calls(IncomingRequestHookActions.MaxLinks) == 1 && all(IncomingRequestHookActions.MaxLinks, $1 == ret(dtChannel.maxLinks, 0))
 //@   modifies c.isOpen, c.pendingExtensions, c.requestID, c.requesterCancelled
 //@   acquires {C20} graphsync.dtChannel.optionsLk, graphsync.requestIDToChannelIDMap.lk
 //@   locked c.lk -- "must be called under the lock"
@@ -291,6 +321,20 @@ package graphsync
 //@   acquires {C20} graphsync.requestIDToChannelIDMap.lk
 //@   loop 0 invariant [scan] $i >= 0
 //@ func (*graphsync.Transport).gsReqRecdHook {C16,C20,C05}
+//@   ensures [accepted-is-validated] {C16,C04} calls(Transport.trackDTChannel) == 1 && (calls(ToExtensionData) == 1 ==> ret(ToExtensionData, 1) == nil) &&
+//@       (calls(EventsHandler.OnRequestReceived) == 1 ==> ret(EventsHandler.OnRequestReceived, 1) == nil || ret(EventsHandler.OnRequestReceived, 1) == datatransfer.ErrPause) &&
+//@       (calls(EventsHandler.OnResponseReceived) == 1 ==> ret(EventsHandler.OnResponseReceived, 0) == nil || ret(EventsHandler.OnResponseReceived, 0) == datatransfer.ErrPause) ==>
+//@       calls(IncomingRequestHookActions.ValidateRequest) == 1 && calls(dtChannel.gsDataRequestRcvd) == 1 && calls(EventsHandler.OnContextAugment) == 1 &&
+//@       calls(IncomingRequestHookActions.AugmentContext) == 1 && all(IncomingRequestHookActions.AugmentContext, $1 == ret(EventsHandler.OnContextAugment, 0))
+//@   ensures [unstarted-restart-starts-paused] {C10,C11} all(EventsHandler.OnRequestReceived, (*ret(Transport.trackDTChannel, 0)).isOpen && !(*ret(Transport.trackDTChannel, 0)).xferStarted ==>
+//@           calls(IncomingRequestHookActions.ValidateRequest) == 0 || calls(IncomingRequestHookActions.PauseResponse) >= 1) &&
+//@       all(EventsHandler.OnResponseReceived, (*ret(Transport.trackDTChannel, 0)).isOpen && !(*ret(Transport.trackDTChannel, 0)).xferStarted ==>
+//@           calls(IncomingRequestHookActions.ValidateRequest) == 0 || calls(IncomingRequestHookActions.PauseResponse) >= 1)
+//@       -- a request that re-opens a channel whose transfer was never un-paused (eg still unsealing) starts its response paused
+//@   ensures [started-or-paused] {C11} all(EventsHandler.OnContextAugment, (*ret(Transport.trackDTChannel, 0)).xferStarted || calls(IncomingRequestHookActions.PauseResponse) >= 1)
+//@   ensures [pauses-only-for-cause] {C11} calls(IncomingRequestHookActions.PauseResponse) <= 1 &&
+//@       all(EventsHandler.OnRequestReceived, calls(IncomingRequestHookActions.PauseResponse) == 1 ==> ret(EventsHandler.OnRequestReceived, 1) == datatransfer.ErrPause ||
+//@           ((*ret(Transport.trackDTChannel, 0)).isOpen && !(*ret(Transport.trackDTChannel, 0)).xferStarted))
 //@   ensures [decode-error] {C16,C12} ret(GetTransferData, 1) != nil ==> calls(IncomingRequestHookActions.TerminateWithError) == 1 && never(Transport.trackDTChannel) &&
 //@       never(EventsHandler.OnRequestReceived) && never(EventsHandler.OnResponseReceived) && never(IncomingRequestHookActions.ValidateRequest)
 //@   ensures [not-ours] {C16} ret(GetTransferData, 1) == nil && ret(GetTransferData, 0) == nil ==> never(Transport.trackDTChannel) && never(EventsHandler.OnRequestReceived) &&
@@ -372,6 +416,7 @@ package graphsync
 //@   requires *ch != nil
 
 //@ func (*graphsync.dtChannel).cancel$1 {C09,C20}
+//@   ensures [not-found-is-success] {C09} calls(GraphExchange.Cancel) == 1 && all(GraphExchange.Cancel, $2 == **requestID)
 //@   requires *c != nil && *requestID != nil && *ctx != nil
 //@   promises *errch {C09} -- one answer on every path (the cancel call itself is assumed to return: dependency)
 //@ func (*graphsync.Transport).getRestartExtension {C10}
